@@ -336,6 +336,19 @@ def run_sizes(ctx):
             x = lim({"jwe": tokp["jwe"], "jwk": {"kty": "oct", "k": sized(n, rng)}, "rand": "00" * 64, "_must_refuse": True, "_site": "size:pbes2-password",
                      "_why": "%d-byte PBES2 password key, unwrap" % n})
             ops.append(("jwe.dec_jwk", x))
+    # ECDH-ES unwrapping with a key that has no d takes the key as the agreed value ("external exchange"): its x feeds the
+    # same fixed buffer as a computed one
+    tokx = ctx.real([("jwe.enc", {"jwe": {"protected": {"alg": "ECDH-ES", "enc": "A128GCM"}}, "jwk": pool["EC-P256"], "pt": "00", "rand": rng.randbytes(120).hex()}),
+                     ("jwe.enc", {"jwe": {"protected": {"alg": "ECDH-ES+A128KW", "enc": "A128GCM"}}, "jwk": pool["EC-P256"], "pt": "00", "rand": rng.randbytes(120).hex()})])
+    for tk in tokx:
+        if not tk.get("ok"):
+            continue
+        for n in (32, 1023, 1024, 1025, 1026, 1100, 2048, 65536):
+            x = lim({"jwe": tk["jwe"], "jwk": {"kty": "EC", "crv": "P-256", "x": sized(n, rng), "y": pool["EC-P256"]["y"]}, "rand": "00" * 64, "_site": "size:exchanged-x",
+                     "_why": "%d-byte x of an externally exchanged key" % n})
+            if n > KEYMAX:
+                x["_must_refuse"] = True
+            ops.append(("jwe.dec_jwk", x))
     # wrapping a caller-supplied content key of 1023..1041 and more bytes with every family that wraps through a fixed buffer
     for n in sizes + [1032, 1040, 1041]:
         cek = {"kty": "oct", "k": sized(n, rng)}
